@@ -9,25 +9,32 @@ use vmodel::{
     session::{CmdSet, Config, EnumSet, GroupSet, Sess, TlSet, PROMPTS, TL_NAMES},
 };
 
-use super::{common::pick, Check, DEFAULT};
+use super::{
+    common::{pick, unhex},
+    declcommon::{self, Servers},
+    Check, PrepError, DEFAULT,
+};
 
 pub fn check() -> Check {
     Check {
         id: "C11",
         run_shard,
         replay,
+        prepare: Some(|tier, seed, dir| -> Result<Value, PrepError> { declcommon::prepare("C11", tier, seed, dir) }),
+        prepare_replay: Some(|v| declcommon::prepare_replay("C11", v)),
+        quick_limit_s: 1800,
         floor_quick: 20_000,
         floor_thorough: 500_000,
         rule: "Library half: a harness-side Autocomplete implementation that follows the protocol of generated code (every name starting with the request merges its continuation) reads 1-8 generated names over {g e t - a x e-acute Cyrillic-g CJK} \
                with forced shared prefixes, one name a prefix of another, any order; crossed with lines (leading/trailing blanks, one or two words, prefixes of names and of `help`), every cursor position and command buffers from len(line) to len(line)+10 bytes. \
                Derived half: the same lines against a derived enum whose matching names are not adjacent in declaration order and a derived group with a hidden member (compiled with the repository's macros). \
+               Macro half (programs): generated declarations (C09's grammar: derived and explicit names incl. multi-byte, any order, split across groups, hidden groups, catch-all member), compiled with the repository's macros, probed with prefixes of their own names. \
                Oracle: longest-common-continuation model over scalar values with a trailing space iff exactly one name matches and it fits; when a candidate does not fit the buffer any scalar-boundary prefix of the common continuation without a space is accepted; \
                always: typed non-blank text is a prefix of the result, length <= buffer, well-formed UTF-8, unchanged when nothing matches or an argument was started; the terminal emulator must show prompt + new line. \
                Non-trivial = at least two names match and they are not adjacent in declaration order, or one matching name is a prefix of another, or fewer than 2 bytes are free, or the common continuation contains a multi-byte character; distinct by (names, line, cursor, buffer).",
         assumptions: &[
             "duplicate names, a user command called `help`, names containing blanks are outside the quantified domain and not generated",
             "Tab with the cursor inside the trailing blanks may complete or leave the line unchanged (both accepted)",
-            "generated declarations (program space) are added by the macro half when the declaration generator is available; see evidence notes",
         ],
         ..DEFAULT
     }
@@ -60,35 +67,30 @@ fn tab_from(v: &Value) -> TabCase {
 
 /// Returns (non-trivial, unspecified-zone) or the failure
 pub fn run_tab<S: CmdSet>(c: &TabCase, names_for_model: &[String]) -> Result<(bool, bool), (String, String)> {
-    let cfg = Config {
-        cmd_buf: c.cap,
-        hist_buf: 0,
-        prompt: c.prompt,
-        set: c.set.clone(),
-        ..Config::default()
-    };
-    let (s, _) = Sess::<S>::new(&cfg, None);
-    let mut s = s.map_err(|e| ("construction succeeds".to_string(), format!("{:?}", e)))?;
-    for &b in c.line.as_bytes() {
-        s.byte(b).map_err(|e| ("Ok".to_string(), format!("{:?}", e)))?;
+    let obs = vmodel::genrun::observe_tab::<S>(&c.line, c.cursor, c.cap, c.prompt);
+    judge_tab(c, names_for_model, &obs)
+}
+
+pub fn judge_tab(c: &TabCase, names_for_model: &[String], obs: &vmodel::genrun::TabObs) -> Result<(bool, bool), (String, String)> {
+    if let Some(e) = &obs.error {
+        return Err(("Ok (working sink)".into(), e.clone()));
     }
-    let nchars = c.line.chars().count();
-    for _ in c.cursor..nchars {
-        for &b in b"\x1b[D" {
-            s.byte(b).map_err(|e| ("Ok".to_string(), format!("{:?}", e)))?;
-        }
-    }
-    let pre = s.editor();
-    if pre.bytes != c.line.as_bytes() || pre.cursor != c.cursor {
+    if !obs.fit {
         // the line did not fit (cap < len): not a completion case
         return Ok((false, true));
     }
-    s.byte(b'\t').map_err(|e| ("Tab: Ok".to_string(), format!("{:?}", e)))?;
-    let post = s.editor();
-    let new = match post.text() {
-        Some(t) => t.to_string(),
-        None => return Err(("line is well-formed UTF-8 after Tab".into(), format!("{:02x?}", post.bytes))),
+    let new = match core::str::from_utf8(&obs.new) {
+        Ok(t) => t.to_string(),
+        Err(_) => return Err(("line is well-formed UTF-8 after Tab".into(), format!("{:02x?}", obs.new))),
     };
+    struct Post {
+        cursor: usize,
+    }
+    let post = Post { cursor: obs.cursor };
+    struct Pre {
+        cursor: usize,
+    }
+    let pre = Pre { cursor: obs.pre_cursor };
     let what = format!("Tab on {:?} (cursor {}, {}-byte buffer) with names {:?}", c.line, c.cursor, c.cap, names_for_model);
     // universal parts
     if new.len() > c.cap {
@@ -103,7 +105,7 @@ pub fn run_tab<S: CmdSet>(c: &TabCase, names_for_model: &[String]) -> Result<(bo
     }
     // terminal shows the new line
     let mut sc = Screen::new();
-    sc.feed(&s.out_from(0));
+    sc.feed(&obs.out);
     if sc.inconclusive.is_none() {
         let want = format!("{}{}", PROMPTS[c.prompt % PROMPTS.len()], new);
         let want_col = PROMPTS[c.prompt % PROMPTS.len()].chars().count() + post.cursor;
@@ -267,6 +269,7 @@ fn fixed_case_strategy() -> impl Strategy<Value = TabCase> {
 }
 
 fn run_shard(ctx: &ShardCtx) {
+    run_macro_half(ctx);
     for (sub, total, fixed) in [("tab-derived", ctx.tier.pick(100_000u64, 1_000_000u64), true), ("tab-library", ctx.tier.pick(400_000, 8_000_000), false)] {
         let f = |c: &TabCase| match run_any(c) {
             Ok((nt, open)) => {
@@ -289,6 +292,92 @@ fn run_shard(ctx: &ShardCtx) {
     }
 }
 
+fn macro_case_strategy(names: Vec<String>) -> impl Strategy<Value = TabCase> {
+    (line_for(names), 0usize..5).prop_map(|((names, line, cur, extra), prompt)| {
+        let n = line.chars().count();
+        TabCase {
+            set: "decl".into(),
+            names,
+            cursor: (cur as usize * (n + 1)) >> 16,
+            cap: line.len() + extra,
+            line,
+            prompt,
+        }
+    })
+}
+
+fn obs_from_reply(r: &Value) -> vmodel::genrun::TabObs {
+    vmodel::genrun::TabObs {
+        fit: r["fit"].as_bool().unwrap_or(false),
+        pre_cursor: r["pre_cursor"].as_u64().unwrap_or(0) as usize,
+        new: unhex(r["new_hex"].as_str().unwrap_or("")),
+        cursor: r["cursor"].as_u64().unwrap_or(0) as usize,
+        out: unhex(r["out_hex"].as_str().unwrap_or("")),
+        error: r["error"].as_str().map(|s| s.to_string()).or_else(|| r["panic"].as_str().map(|s| s.to_string())),
+    }
+}
+
+fn run_macro_half(ctx: &ShardCtx) {
+    let set = declcommon::worker_set("C11", ctx);
+    let servers = Servers::new();
+    let per_decl = ctx.tier.pick(300u64, 1500u64);
+    let mut gi = 0u64;
+    for (bin, decls) in &set.crates {
+        for d in decls {
+            gi += 1;
+            if !ctx.mine(gi) || ctx.failed() {
+                continue;
+            }
+            ctx.class("macro:declarations exercised");
+            let names = d.visible_names();
+            let sub = "tab-macro";
+            ctx.run_prop(
+                &format!("{}-{}", sub, gi),
+                per_decl * ctx.nshards as u64,
+                macro_case_strategy(names.clone()),
+                |c| {
+                    let mut j = tab_json(c);
+                    j["decl"] = json!(d);
+                    j
+                },
+                |c| {
+                    let reply = servers
+                        .ask(bin, &json!({"d": d.id, "kind": "tab", "line": c.line, "cursor": c.cursor, "cap": c.cap, "prompt": c.prompt}))
+                        .map_err(|e| Failure::new(sub, Value::Null, "the process survives Tab", e))?;
+                    match judge_tab(c, &names, &obs_from_reply(&reply)) {
+                        Ok((nt, open)) => {
+                            if open {
+                                ctx.class("zone: candidate does not fit / cursor inside trailing blanks (several results accepted)");
+                            }
+                            if nt {
+                                ctx.class("macro:nontrivial");
+                                ctx.nontrivial(fingerprint(&(gi, &c.line, c.cursor, c.cap)), || tab_json(c));
+                            }
+                            Ok(())
+                        }
+                        Err((e, o)) => Err(Failure::new(sub, Value::Null, e, o)),
+                    }
+                },
+            );
+        }
+    }
+    if let Some(f) = ctx.res.borrow_mut().failure.as_mut() {
+        if f.check.starts_with("tab-macro") {
+            f.check = "tab-macro".into();
+        }
+    }
+}
+
 fn replay(sub: &str, case: &Value) -> Verdict {
+    if sub == "tab-macro" {
+        let fail = |e: String, o: String| Failure::new(sub, case.clone(), e, o);
+        let d: vmodel::decl::Decl = serde_json::from_value(case["decl"].clone()).map_err(|e| fail("a declaration model in the replay file".into(), e.to_string()))?;
+        let c = tab_from(case);
+        let servers = Servers::new();
+        let reply = servers
+            .ask(&declcommon::replay_bin("C11"), &json!({"d": 0, "kind": "tab", "line": c.line, "cursor": c.cursor, "cap": c.cap, "prompt": c.prompt}))
+            .map_err(|e| fail("the process survives Tab".into(), e))?;
+        return judge_tab(&c, &d.visible_names(), &obs_from_reply(&reply)).map(|_| ()).map_err(|(e, o)| fail(e, o));
+    }
     run_any(&tab_from(case)).map(|_| ()).map_err(|(e, o)| Failure::new(sub, case.clone(), e, o))
 }
